@@ -261,6 +261,19 @@ def reshape_cases(payload):
         for j in range(2):
           want[i, j, int(lab[i, j])] = 1.0
       r['onehot_any_dtype'] = oh.shape == want.shape and bool((oh == want).all())
+      # raw observations for the model (Model/Host.v shard / stack_forest / onehot)
+      xs1 = np.arange(d * n) * 3 + 1
+      jax.local_device_count = lambda: d
+      try:
+        s1 = np.asarray(common_utils.shard(xs1))
+      finally:
+        jax.local_device_count = orig
+      forest1 = [[np.asarray(i * 5 + c.get('off', 0)), np.asarray(-i)] for i in range(n)]
+      st1 = common_utils.stack_forest(forest1)
+      lab1 = [int(v) for v in lab.reshape(-1)][:6] + [-1, K, K + 3]
+      oh1 = np.asarray(common_utils.onehot(jnp.asarray(lab1, dtype=jnp.int64), min(K, 12), on_value=5, off_value=-2))
+      r['_raw'] = {'shard': [xs1.tolist(), s1.tolist()], 'forest': [[[int(a) for a in t] for t in forest1], [np.asarray(l).tolist() for l in st1]],
+                   'onehot': [lab1, min(K, 12), oh1.astype(np.int64).tolist()]}
       devs = [jax.devices()[0]] * d
       rep = jax_utils.replicate({'w': jnp.arange(3.0)}, devices=devs)
       r['replicate'] = rep['w'].shape == (d, 3) and bool((rep['w'] == jnp.arange(3.0)[None]).all())
